@@ -868,6 +868,9 @@ pub fn execute(d: &LifeDesc, keep_trace: bool) -> RunResult {
     }
     IN_CALL.store(0, SeqCst);
     IN_COMPILE.store(0, SeqCst);
+    // swarm knob: in one run of three freed JIT pages are handed out again instead of quarantined
+    let page_reuse = crate::rng::derive(d.run_seed, &[crate::rng::label("page-reuse")]) % 3 == 0;
+    alloc::PAGE_REUSE.store(page_reuse, SeqCst);
     let mut res = RunResult::default();
 
     // phase 1 on the main thread (code under test allocates in RUN mode)
@@ -1011,6 +1014,8 @@ pub fn execute(d: &LifeDesc, keep_trace: bool) -> RunResult {
     res.decisions = out.decisions.clone();
     let c = &mut res.counters;
     c.insert("runs".into(), 1);
+    c.insert("knob_page_reuse_runs".into(), page_reuse as u64);
+    c.insert("pages_reused".into(), alloc::ST_PAGE_REUSED.load(std::sync::atomic::Ordering::Relaxed));
     c.insert("steps".into(), out.steps);
     c.insert("switches".into(), out.switches);
     c.insert("preemptions".into(), out.preemptions);
